@@ -662,8 +662,9 @@ def run_service(suite, backend, now, rng, tier):
             suite.violate(v, {"path": "service", "backend": backend, "spec": sp, "now": now}, "add_service_event produced an effect for an event that is not authentic (%s)" % v, observed=impl)
 
 
-def run_cli_load(suite, now, rng):
-    """the bulk loader (`nostr-relay load`): file lines -> storage.add_event; SQL backend through Config.storage"""
+def run_cli_load(suite, now, rng, configured_validators=True):
+    """the bulk loader (`nostr-relay load`): file lines -> storage.add_event; SQL backend through Config.storage.
+    configured_validators=False: the configuration lists no validators, so the storage default (is_signed) applies"""
     try:
         from nostr_relay import cli
         fn = cli.load.callback
@@ -700,7 +701,7 @@ def run_cli_load(suite, now, rng):
             url = st.db_url
             await env.close(st)
             Config.verification = {"nip05_verification": "disabled"}
-            Config.storage = {"sqlalchemy.url": url, "validators": ["nostr_relay.validators.is_signed"]}
+            Config.storage = {"sqlalchemy.url": url, "validators": ["nostr_relay.validators.is_signed"]} if configured_validators else {"sqlalchemy.url": url}
             stmod._STORAGE = None
             path = os.path.join(sc.dir, "events.jsonl")
             with open(path, "w") as f:
@@ -796,6 +797,72 @@ def suite_finding(now):
     return s
 
 
+def suite_validator_orders(tier, rng, now):
+    """sessions [valid event, corrupted event] through web.start_client on storages whose validator list puts other shipped
+    validators in front of / behind is_signed: whatever the earlier validators do with a type-confused event (raise, refuse,
+    pass), an event that is not authentic is never acknowledged true, stored or broadcast (c03.holds only: the other
+    validators legitimately refuse more than the admission model does)"""
+    import itertools
+    s = Suite("oracle:validator-order")
+    s.rule = ("every order of the shipped validators is_not_too_large / is_recent / is_signed (quick: 3 orders) x sessions of a valid event followed "
+              "by one corruption (type-confused created_at / kind / content / tags, forged id / sig / delegation, ...) on one connection through "
+              "web.start_client, SQL backend; c03.holds on (acknowledged, stored, broadcast) of the corrupted event; non-trivial = the corrupted "
+              "event reaches a validator in front of is_signed")
+    env.patch_web_sleep()
+    import aionostr.event as ae
+
+    class _T:
+        time = staticmethod(lambda: now)
+    ae.time = _T
+    vals = ["nostr_relay.validators.is_not_too_large", "nostr_relay.validators.is_recent", "nostr_relay.validators.is_signed"]
+    orders = list(itertools.permutations(vals))
+    if tier == "quick":
+        orders = [orders[0], orders[3], orders[4]]
+    cases = [c for c in gen_cases("quick", rng) if c["name"] != "valid"]
+    if tier == "quick":
+        cases = rng.sample(cases, min(len(cases), 60))
+    pre_m, pre_o = precompute(cases, now)
+    for order in orders:
+        async def go(order=order):
+            sc = env.Scratch()
+            out = []
+            try:
+                env.load_config(oldest_event=10 ** 9, max_event_size=10 ** 6)
+                st = await env.sql_storage(sc, validators=list(order))
+                try:
+                    for k, c in enumerate(cases):
+                        good = env.mk_event(k % 3, 1, now - 1, [], "good %d %s" % (k, order[0][-6:]))
+                        out.append(await ws_batch(st, [good, c["payload"]]))
+                finally:
+                    await env.close(st)
+            finally:
+                sc.close()
+            return out
+        res = env.run(go())
+        hcases, owners = [], []
+        for c, mc, mo, (sent, got, stored) in zip(cases, pre_m, pre_o, res):
+            frames = [f for f in sent if not f.startswith("CLOSED:")]
+            fr = None
+            if len(frames) >= 2:
+                try:
+                    fr = json.loads(frames[1])
+                except Exception:
+                    fr = None
+            ok = bool(fr and fr[0] == "OK" and fr[2] is True)
+            cands = candidate_ids(c["payload"], mo["event"])
+            impl = {"acked": ok, "stored": bool(cands & stored), "broadcast": bool(cands & got)}
+            s.case({"order": [o.split(".")[-1] for o in order], "corruption": c["name"]}, nontrivial=order[0] != vals[2])
+            s.count("second_frame_" + (str(fr[0]) + ("_true" if ok else "_false") if fr else "none"))
+            hcases.append(dict(mc, **impl))
+            owners.append((c, impl, frames[1][:200] if len(frames) >= 2 else None, order))
+        for (c, impl, frame, order), v in zip(owners, model_batch("c03.holds", hcases)):
+            if v != "ok":
+                s.violate(v, {"path": "ws-order", "order": list(order), "corruption": c["name"], "payload": c["payload"], "now": now},
+                          "an event that is not authentic (%s) was %s behind the validator order %s" % (v, "/".join(k for k, x in impl.items() if x), [o.split(".")[-1] for o in order]),
+                          expected="refused", observed=dict(impl, frame=frame))
+    return s
+
+
 def run(tier, seed):
     rng = rng_for(seed, "c03")
     now = env.NOW
@@ -819,7 +886,9 @@ def run(tier, seed):
     for backend in ("sql", "kv"):
         run_service(s2, backend, now, rng, tier)
     run_cli_load(s2, now, rng)
+    run_cli_load(s2, now, rng, configured_validators=False)
     suites.append(s2)
+    suites.append(suite_validator_orders(tier, rng, now))
     suites.append(suite_finding(now))
     from .. import extra
     from .. import extra as _extra
@@ -831,6 +900,31 @@ def replay(payload):
     c = v["case"]
     now = c.get("now", env.NOW)
     s = Suite("replay")
+    if c.get("path") == "ws-order":
+        env.patch_web_sleep()
+
+        async def go():
+            sc = env.Scratch()
+            try:
+                env.load_config(oldest_event=10 ** 9, max_event_size=10 ** 6)
+                st = await env.sql_storage(sc, validators=list(c["order"]))
+                try:
+                    return await ws_batch(st, [env.mk_event(0, 1, now - 1, [], "good replay"), c["payload"]])
+                finally:
+                    await env.close(st)
+            finally:
+                sc.close()
+        sent, got, stored = env.run(go())
+        frames = [f for f in sent if not f.startswith("CLOSED:")]
+        print("frames:", [f[:160] for f in frames])
+        fr = json.loads(frames[1]) if len(frames) >= 2 else None
+        mcs, mos = precompute([{"name": c["corruption"], "flavour": "replay", "payload": c["payload"]}], now)
+        cands = candidate_ids(c["payload"], mos[0]["event"])
+        impl = {"acked": bool(fr and fr[0] == "OK" and fr[2] is True), "stored": bool(cands & stored), "broadcast": bool(cands & got)}
+        vd = model_batch("c03.holds", [dict(mcs[0], **impl)])[0]
+        print("observed:", impl, "verdict:", vd)
+        print("replay:", "FAIL" if vd != "ok" else "pass")
+        return 1 if vd != "ok" else 0
     if c.get("path") == "ws":
         run_ws(s, [{"name": c["corruption"], "flavour": "replay", "payload": c["payload"]}], c["backend"], now)
     elif c.get("path") == "service":
